@@ -321,4 +321,23 @@ PROPS = {
                               {"test": "^TestC19Live$", "shards": 1, "timeout": 900, "group": 1, "weight": 16},
                               {"test": "^TestC19Live$", "shards": 1, "timeout": 900, "group": 2, "weight": 16, "race": True, "env": {"VERIF_LIVE_BUDGET": "120"}}]},
     },
+    "C20": {
+        "title": "A crash never leaves persistent state torn",
+        "level": "fault_enumeration",
+        "needs_cmds": True,
+        "rule": "rapid-generated sequences of 1-5 updates on one store (message board post of 1-5000 bytes; threaded news: create bundle / category, "
+                "post with body 1/300/6000 bytes, delete article, delete item; accounts: create / update in place / rename / delete; ban list: "
+                "temporary or permanent ban of one of 3 addresses, re-bans); the prefix is applied normally (old state), the last update is "
+                "performed by cmd/crashhelper (production stores, main goroutine locked to the main thread) under strace, which is re-run once "
+                "per file system call of that thread with SIGKILL injected BEFORE the call (open/creat/write/close/rename/unlink/truncate/"
+                "link/mkdir/fsync family; the kill before the final ACK write covers 'after the last call'); after every kill the directory "
+                "is loaded with the production constructors: it must load, equal the complete old or the complete new observable value "
+                "(board text, news tree, accounts with name/privileges/password hash, ban map), and be new if ACK was printed; "
+                "evaluations = killed runs; non-trivial = crash point strictly after the first and not after the last mutating call of the "
+                "update; distinct = hash(history, crash point index); exhaustive per generated update (all system-call boundaries)",
+        "assumptions": ["fault model = process kill at system-call boundaries (page cache survives); torn single writes and power loss are not modelled",
+                        "strace when= counters are per thread: kills caused by another runtime thread reaching the same ordinal are extra crash points, never missing ones"],
+        "quick": {"runs": [{"test": "^TestC20$", "shards": 16, "checks": 6, "timeout": 900}]},
+        "thorough": {"runs": [{"test": "^TestC20$", "shards": 16, "checks": 150, "timeout": 3400}]},
+    },
 }
